@@ -7,7 +7,7 @@
 //!                         | i await on a run-on-wake executor (the waker polls the future inline on the waking thread)
 //!        Y<q>[body]<mode> future_sync     mode: a await | k<n> poll n times then drop
 //!        A<q>e<e><mode>  after(event e) mode as for F
-//!        U<q> suspend+await (resumer kept)   u<q> suspend, the future is only awaited when R / r needs the resumer   R resume   r drop the resumer
+//!        U<q> suspend+await (resumer kept)   u<q> suspend, the future is only awaited when R / r needs the resumer   R resume   C<q> suspend+await and hand the resumer to whoever executes R<q>   R<q> resume object q's suspension from THIS caller (waits until the resumer has been handed over)   r drop the resumer
 //!        E<e> fire event   O<g> open gate   X<q> drop this program's handle of object q
 //!        I<q>k<k> pipe_in stream k into object q   J<q>k<k>d<d> pipe stream k through q (depth d, 0 = default); output kept by the caller
 //!        g<k>n<n> produce n SLOW items (their processing yields co-operatively once, holding the object across the yield)   G<k>n<n> produce n items on stream k   H<k> end stream k   N<n> consume n outputs (0 = until the end)   K drop the output stream
@@ -37,7 +37,9 @@ pub enum Op {
     After(usize, usize, Mode),
     Suspend(usize),
     SuspendLazy(usize),
+    SuspendHand(usize),
     Resume,
+    ResumeShared(usize),
     DropResumer,
     Fire(usize),
     Open(usize),
@@ -67,7 +69,7 @@ impl Program { pub fn nstreams(&self) -> usize { self.callers.iter().flatten().m
 impl Op {
     pub fn obj(&self) -> Option<usize> {
         match self {
-            Op::Desync(q, _) | Op::Sync(q, _) | Op::TrySync(q, _) | Op::FutDesync(q, _, _) | Op::FutSync(q, _, _) | Op::After(q, _, _) | Op::Suspend(q) | Op::SuspendLazy(q) | Op::DropObj(q) | Op::ExpectPanic(q) | Op::PipeIn(q, _) | Op::Pipe(q, _, _) => Some(*q),
+            Op::Desync(q, _) | Op::Sync(q, _) | Op::TrySync(q, _) | Op::FutDesync(q, _, _) | Op::FutSync(q, _, _) | Op::After(q, _, _) | Op::Suspend(q) | Op::SuspendLazy(q) | Op::SuspendHand(q) | Op::DropObj(q) | Op::ExpectPanic(q) | Op::PipeIn(q, _) | Op::Pipe(q, _, _) => Some(*q),
             _ => None
         }
     }
@@ -105,7 +107,9 @@ pub fn fmt_op(o: &Op) -> String {
         Op::After(q, e, m) => format!("A{}e{}{}", q, e, fmt_mode(m)),
         Op::Suspend(q) => format!("U{}", q),
         Op::SuspendLazy(q) => format!("u{}", q),
+        Op::SuspendHand(q) => format!("C{}", q),
         Op::Resume => "R".into(),
+        Op::ResumeShared(q) => format!("R{}", q),
         Op::DropResumer => "r".into(),
         Op::Fire(e) => format!("E{}", e),
         Op::Open(g) => format!("O{}", g),
@@ -210,7 +214,8 @@ fn parse_op(cs: &[char], i: &mut usize) -> Result<Op, String> {
         'A' => { let q = parse_num(cs, i)?; if *i >= cs.len() || cs[*i] != 'e' { return Err("e expected".into()); } *i += 1; let e = parse_num(cs, i)?; Op::After(q, e, parse_mode(cs, i)?) }
         'U' => Op::Suspend(parse_num(cs, i)?),
         'u' => Op::SuspendLazy(parse_num(cs, i)?),
-        'R' => Op::Resume,
+        'C' => Op::SuspendHand(parse_num(cs, i)?),
+        'R' => { if *i < cs.len() && cs[*i].is_ascii_digit() { Op::ResumeShared(parse_num(cs, i)?) } else { Op::Resume } }
         'r' => Op::DropResumer,
         'E' => Op::Fire(parse_num(cs, i)?),
         'O' => Op::Open(parse_num(cs, i)?),
@@ -414,6 +419,7 @@ pub fn generate(p: &Profile, r: &mut Rng) -> Program {
     let ngates = p.gates.min(nq.saturating_sub(1));
     if ngates > 0 && pool <= ngates { pool = ngates + 1; }
     let mut fires: Vec<usize> = vec![];
+    let mut shared_resume: Option<usize> = None;
     for c in 0..ncallers {
         let nops = range(r, p.ops);
         let mut ops = vec![];
@@ -459,8 +465,16 @@ pub fn generate(p: &Profile, r: &mut Rng) -> Program {
             else { k -= p.w_after;
             if k < p.w_suspend { if has_resumer { op = Op::Resume; has_resumer = false; } else { op = if r.chance(1, 3) { Op::SuspendLazy(q) } else { Op::Suspend(q) }; has_resumer = true; } }
             else { op = Op::DropObj(q); } } } } } } }
-            let op = if has_resumer && !matches!(op, Op::Suspend(_) | Op::SuspendLazy(_)) { match op { Op::Sync(q, b) => Op::Desync(q, b), Op::FutDesync(q, b, _) => Op::FutDesync(q, b, Mode::Detach), o => o } } else { op };
+            let op = if has_resumer && !matches!(op, Op::Suspend(_) | Op::SuspendLazy(_) | Op::SuspendHand(_)) { match op { Op::Sync(q, b) => Op::Desync(q, b), Op::FutDesync(q, b, _) => Op::FutDesync(q, b, Mode::Detach), o => o } } else { op };
             ops.push(op);
+        }
+        // now and then the resumer is handed to another thread, which resumes the queue (at most once per program)
+        if has_resumer && shared_resume.is_none() && r.chance(1, 3) {
+            if let Some(ix) = ops.iter().rposition(|o| matches!(o, Op::Suspend(_) | Op::SuspendLazy(_))) {
+                let q = ops[ix].obj().unwrap();
+                ops[ix] = Op::SuspendHand(q);
+                shared_resume = Some(q); has_resumer = false;
+            }
         }
         if has_resumer { ops.push(if r.chance(1, 2) { Op::Resume } else { Op::DropResumer }); }
         if c == 0 { for g in 0..ngates { ops.push(Op::Open(g)); } }
@@ -468,6 +482,7 @@ pub fn generate(p: &Profile, r: &mut Rng) -> Program {
     }
     // now and then a second kind of object: a value without drop glue dropped with work queued (its drop must wait all the same)
     if p.w_drop > 0 && r.chance(1, 4) { let c = r.below(callers.len()); let at = r.below(callers[c].len() + 1); callers[c].insert(at, Op::PlainDrop(1 + r.below(4))); }
+    if let Some(q) = shared_resume { callers.push(vec![Op::Yield(1 + r.below(30)), Op::ResumeShared(q)]); }
     // Events are fired by a dedicated extra caller so that a caller awaiting a future is never the one that must fire it
     if !fires.is_empty() {
         let mut f: Vec<Op> = fires.iter().map(|e| Op::Fire(*e)).collect();
